@@ -48,9 +48,12 @@ def run_one(v: Variant, base: Path) -> dict:
             for p in dst.rglob("*.py"):
                 p.write_text(unparse_roundtrip(p.read_text()))
         else:
-            if text.count(v.old) < 1:
+            olds = v.old if isinstance(v.old, (list, tuple)) else [v.old]
+            news = v.new if isinstance(v.new, (list, tuple)) else [v.new]
+            if any(text.count(o) < 1 for o in olds):
                 return {"variant": v.name, "status": "anchor-missing"}
-            text = text.replace(v.old, v.new, v.count)
+            for o, nw in zip(olds, news):
+                text = text.replace(o, nw, v.count)
             try:
                 ast.parse(text)
             except SyntaxError as e:
